@@ -101,6 +101,11 @@ class PendingComp(PendingExprGeneric[_CompNode]):
         self.target_names = set()
 
         for comp in self.node.generators:
+            if comp.is_async:
+                raise RuntimeError(
+                    f"At line {node.lineno}, col {node.col_offset}: "
+                    "Unable to convert an asynchronous comprehension"
+                )
             self.get_comp_target_names(comp.target)
 
         self.nsp.comp_stack.append(self)
@@ -186,6 +191,12 @@ class ExpressionTransformer:
         self.nsp = nsp
 
     def get_pending(self, node: expr) -> PendingExprGeneric:
+        if isinstance(node, (Yield, YieldFrom, Await)):
+            # a lambda can not be a generator or a coroutine
+            raise RuntimeError(
+                f"At line {node.lineno}, col {node.col_offset}: "
+                f"Unable to convert node '{type(node).__name__}'"
+            )
         if isinstance(node, NamedExpr):
             return PendingNamedExpr(node, self.nsp)
         elif isinstance(node, Name):
